@@ -44,7 +44,10 @@ ASSUMPTIONS = ["absolute numerical slack of 2e-5 A on top of the tolerance-propo
 
 @st.composite
 def strategy(draw):
-    case = draw(repl.replace_case(repl_kinds=["larger", "larger", "equal", "disjoint"], fractions=True))
+    # patterns whose occurrences admit several numberings (proper symmetry, mirror pairs) get extra weight: there the
+    # numbering that decides which atoms go and the rotation that places the new atoms must belong together
+    case = draw(repl.replace_case(repl_kinds=["larger", "larger", "equal", "disjoint"], fractions=True,
+                                  pattern_classes=gen_geom.PATTERN_CLASSES + ["symmetric", "symmetric", "mirror-pair"]))
     if case["f"] == 0.0:
         case["f"] = 1.0
     case["replace_all"] = draw(st.booleans())
@@ -122,6 +125,19 @@ def check_result(case, groups, new, stats, label, k=None):
                 out.append((ci, q))
         return out
 
+    # the numbering that explains where the new atoms are must also be the one that decided which matched atoms went and
+    # which stayed: under ordering o the search-only atoms o.idx[s_only] are gone and the common atoms o.idx[shared] are
+    # still there (atoms are identified by their unique charge tags)
+    pl = case.get("payload")
+    present = {round(a["charge"], 6) for a in res} if pl else None
+    stay = sorted(set(sh.values()))
+
+    def consistent(o):
+        if present is None:
+            return True
+        tag = lambda i: round(pl["charges"][o["idx"][i]], 6)
+        return all(tag(i) not in present for i in s_only) and all(tag(i) in present for i in stay)
+
     best_fail = [None]
 
     def fit(o, chosen):
@@ -141,6 +157,8 @@ def check_result(case, groups, new, stats, label, k=None):
             return None
         key = keys[gi]
         for o in groups[key]["orderings"]:
+            if not consistent(o):
+                continue
             cands = [candidates(o, j, used) for j in r_only]
             if all(cands):
                 for combo in itertools.product(*cands):
